@@ -231,6 +231,23 @@ def expected_subsets(spec, n):
     return list(range(n))[slice(spec[1], spec[2], spec[3])]
 
 
+def has_valueless_node(nodes, ident):
+    """does the nested JSON hold an element node with this id and no value (data not present, 221YYY)?"""
+    for nd in nodes:
+        if isinstance(nd, list):
+            if has_valueless_node(nd, ident):
+                return True
+            continue
+        if nd.get('id') == ident and 'value' not in nd and 'members' not in nd:
+            return True
+        for k in ('members', 'attributes'):
+            if k in nd and has_valueless_node(nd[k], ident):
+                return True
+        if 'factor' in nd and has_valueless_node([nd['factor']], ident):
+            return True
+    return False
+
+
 def check_paths(out, what, msg, nj, labels, flat_values, qc, n):
     for stext, sspec, comps, text in qc.paths:
         expr = (stext + ' ' + text).strip()
@@ -274,6 +291,11 @@ def check_paths(out, what, msg, nj, labels, flat_values, qc, n):
         for expr in (ident, '> ' + ident):
             o, got, qr = run_query(msg, expr)
             if not o.ok:
+                if isinstance(o.exc, QueryError) and any(has_valueless_node(nj[i], ident) for i in range(n)):
+                    # the ID also occurs as an element that 221YYY marks "data not present": a node without a value, which
+                    # the library refuses to query -- not "an ordinary element" in the sense of the statement
+                    out.classes.append('bare_id_also_occurs_without_value')
+                    continue
                 out.fail('%s: bare-ID query raised %s@%s' % (what, o.exc_type, o.frame), expr=expr, error=o.msg)
                 continue
             gf = sut.norm_json(qr.all_values(flat=True))
@@ -317,6 +339,11 @@ def check_case(qc):
                     expr = (stext + text) if stext else text
                     a = sut.call(lambda: sut.norm_json(_Q.query(results['plain'], expr).all_values()))
                     b = sut.call(lambda: sut.norm_json(_Q.query(o.value, expr).all_values()))
+                    if a.ok != b.ok and not expected_subsets(sspec, n) and isinstance((a if not a.ok else b).exc, QueryError):
+                        # nothing is selected: the uncompressed evaluation visits no subset, the compressed one still walks the
+                        # shared tree and may meet a node without such sub-nodes (outside the statement, as in check_paths)
+                        out.classes.append('library_query_error_on_empty_selection')
+                        continue
                     if a.ok != b.ok or (a.ok and a.value != b.value):
                         out.fail('query result depends on whether the data is stored compressed', expr=expr,
                                  first=repr(a)[:200] if not a.ok else a.value, second=repr(b)[:200] if not b.ok else b.value)
